@@ -166,6 +166,18 @@ Definition step (mods : list name) (t : table) (o : op) : table * (list delivery
 Definition run (mods : list name) (ops : list op) : table :=
   fold_left (fun t o => fst (step mods t o)) ops [].
 
+(* ------------------------------------------------------------------ the node *)
+(* secnode.modules in dict order; every module carries its `export` property (False: an internal module, e.g. a
+   communicator, which does not appear in the description).  The dispatcher looks a named module up in secnode.modules
+   (handle_logging) and set_all_log_levels iterates secnode.modules.values() WITHOUT a filter (translator fact
+   set_all_iterates_all_modules, an obligation): the `mods` every function above ranges over is node_modules, the export
+   flag plays no role in the routing.  node_exported is what the description shows; it is used by the specification side
+   (a stop must cover the modules outside of it too) and by the variant of LemmasNode.v only. *)
+Definition node := list (name * bool).
+Definition node_modules (nd : node) : list name := map fst nd.
+Definition node_exported (nd : node) : list name := map fst (filter snd nd).
+Definition run_node (nd : node) (ops : list op) : table := run (node_modules nd) ops.
+
 (* ------------------------------------------------------------------ LogfileHandler.doRollover *)
 (* a directory entry: its name and whether it is a regular file (entry.is_file(follow_symlinks=False));
    sub-directories and symbolic links such as `current` are not *)
